@@ -20,6 +20,26 @@ def root_of(t):
     return t
 
 
+def join_tables(ctx, spec):
+    """Names of the closure containers of a join handler that are addressed by an index derived from the key."""
+    names = set()
+    for kind, cfg, paths in ctx.all_paths(spec, kinds=("Next", "Completed", "Create")):
+        for p in paths:
+            li_ = _loop_iters(p)
+            for e in p.trace:
+                if e.k == "substore" and e.base[0] == "free":
+                    li = linear_index(e.index, li_)
+                    if li is not None and li[0] == "scaled":
+                        names.add(e.base[1])
+    # tables grown in lock-step with them at key creation
+    for kind, cfg, paths in ctx.all_paths(spec, kinds=("Create",)):
+        for p in paths:
+            apps = [e.base[1] for e in p.trace if e.k == "mutate" and e.method == "append" and e.base[0] == "free"]
+            if names & set(apps):
+                names |= set(apps)
+    return names
+
+
 def _range_skipped(p):
     """True if a for-loop over range(...) ran zero times on this path (the
     loop is the quantifier over slots, not an optional path)."""
@@ -57,7 +77,9 @@ def rule_st1(ctx: Ctx) -> RuleResult:
             r.instances += 1
             allowed = {}
             if cls == "join":
-                allowed = {"queue": "tee_map join table (covered by ST-5)", "has_next": "tee_map join table (covered by ST-5)"}
+                # the join tables: closure containers addressed by key[0]*n + <branch / slot> (covered by ST-5)
+                for name in join_tables(ctx, spec):
+                    allowed[name] = "tee_map join table (covered by ST-5)"
             for kind, cfg, paths in ctx.all_paths(spec, kinds=("Create", "Next", "Completed", "Error", "Other") if cls != "root" else (None,)):
                 for p in paths:
                     r.paths += 1
@@ -169,7 +191,7 @@ def rule_st2_3_4(ctx: Ctx):
 def _family(idx, loop_iters):
     if idx is None:
         return None
-    li = linear_index(idx)
+    li = linear_index(idx, loop_iters)
     if li == ("keyidx",):
         return ("single",)
     if li is not None and li[0] == "scaled":
@@ -192,7 +214,7 @@ def _fam_str(f):
 def rule_st5(ctx: Ctx) -> RuleResult:
     """tee_map join table: indices written during a lifetime are reset when it ends (or begins)."""
     r = RuleResult("ST-5", "tee_map join table: every slot written during a key lifetime is reset when the lifetime ends or starts")
-    site = ctx.site("rxsci/operators/tee_map.py", "_process_many.subscribe_mux")
+    site = ctx.site("rxsci/operators/tee_map.py", "_process_many.subscribe_mux", kind="mux")
     specs = site.handler_specs("on_next")
     if len(specs) != 1 or not specs[0].bound:
         raise AnalysisError("tee_map.subscribe_mux: expected one on_next handler bound to the branch index")
@@ -249,10 +271,12 @@ def rule_st5(ctx: Ctx) -> RuleResult:
 
 def _slot_set(index, branch, loop_iters, p, guard_only):
     """Describe base*n + X as a set of slots of the key: ('range', n) | ('one', term) | ('unknown', index)."""
-    li = linear_index(index)
+    li = linear_index(index, loop_iters)
     if li is None or li[0] != "scaled":
         return ("unknown", index)
     D, rest = li[1], li[2]
+    if rest == ("fullrange", D):
+        return ("range", D)
     if rest == branch:
         # restricted by an equality guard on the branch index?
         for e in p.trace:
@@ -340,6 +364,28 @@ def rule_wc1(ctx: Ctx) -> RuleResult:
     for site in ctx.mux_sites():
         for spec in site.handler_specs("on_next"):
             handler_fns.add(spec.fn)
+    # helpers called from a handler (e.g. one flush routine shared by the Completed and Error branches)
+    from ..model import _lookup_def
+    work = [(f, None) for f in handler_fns]
+    mod_of = {}
+    for site in ctx.mux_sites():
+        for spec in site.handler_specs("on_next"):
+            mod_of[spec.fn] = site.module
+    seen = set(handler_fns)
+    frontier = list(handler_fns)
+    while frontier:
+        f = frontier.pop()
+        fm = mod_of.get(f)
+        if fm is None:
+            continue
+        for n in ast.walk(f):
+            if isinstance(n, ast.Call) and isinstance(n.func, ast.Name):
+                d = _lookup_def(fm, f, n.func.id)
+                if d is not None and d not in seen:
+                    seen.add(d)
+                    mod_of[d] = fm
+                    frontier.append(d)
+    handler_fns = seen
     ops = {"add_key", "del_key", "get_state", "set_state", "add_map", "del_map", "get_map", "iterate_map", "iterate_state"}
     for rel, m in sorted(prog.by_relpath.items()):
         for node in ast.walk(m.tree):
